@@ -410,6 +410,9 @@ class MarkdownNormalizer(Renderer):
                 # within a quote block it would be the secondary prefix, like `> `.
                 result += self._second_prefix.strip() + "\n"
 
+        # Nothing has been emitted for this item yet: a list that is its first child must not
+        # open with a separator of its own (a paragraph or other block resets this flag).
+        self._suppress_item_break = True
         result += self.render_children(element)
 
         return result
